@@ -39,7 +39,7 @@ def _high_targets():
 
 @st.composite
 def _cases(draw):
-    s = draw(gen.score_sets(max_size=8, modes=MODES, mag=1e6))
+    s = draw(gen.score_sets(max_size=8, modes=MODES, mag=1e6, containers=("f64", "f64", "f32", "list", "neg-int", "pos-int", "neg-f32")))
     lows = draw(st.lists(_low_targets(), min_size=1, max_size=2))
     highs = draw(st.lists(_high_targets(), min_size=1, max_size=2))
     interior = draw(st.lists(st.floats(min_value=0.01, max_value=0.99), min_size=0, max_size=2))
@@ -61,15 +61,16 @@ def _check_obj(s, targets, scalar_idx, tag=""):
             lo, hi = brute_extremes(m, pos, neg, ep, en, sc, ec)
             if (lo, hi) != closed:
                 raise HarnessError(f"oracle mismatch {m}: brute {(lo, hi)} closed {closed}")
-            obj = Scores(np.asarray(pos, dtype=dt), np.asarray(neg, dtype=dt), nb_easy_pos=ep,
-                         nb_easy_neg=en, score_class=sc, equal_class=ec)
+            obj = Scores(gen.build_scores(s, "pos") if "container" in s else np.asarray(pos, dtype=dt),
+                         gen.build_scores(s, "neg") if "container" in s else np.asarray(neg, dtype=dt),
+                         nb_easy_pos=ep, nb_easy_neg=en, score_class=sc, equal_class=ec)
             f = getattr(obj, m)
             th = getattr(obj, "threshold_at_" + m)
             lo_f, hi_f = lo.numerator / lo.denominator, hi.numerator / hi.denominator
             for meth in METHODS:
                 t = np.asarray(th(rs, method=meth), dtype=float)
                 v = np.asarray(f(t), dtype=float)
-                for i, r in enumerate(rs):
+                for i, r in enumerate(targets):  # pristine values: the array object rs is re-used
                     if r <= 0:
                         require(v[i] == lo_f, "ext:low",
                                 lambda: f"{tag}{m} config={sc}/{ec} method={meth} r={r!r}: threshold "
@@ -81,7 +82,7 @@ def _check_obj(s, targets, scalar_idx, tag=""):
                                         f"{t[i]!r} gives {m}={v[i]!r}, highest achievable is {hi_f!r} "
                                         f"({hi})")
                 # scalar call at one of the targets
-                r = float(rs[scalar_idx])
+                r = float(targets[scalar_idx])
                 if r <= 0 or r >= 1:
                     ts = th(r, method=meth)
                     vs = float(f(ts))
